@@ -230,7 +230,7 @@ func (b *builder) pcClientHeader() {
 	b.raw(make([]byte, 20))
 	inner := &builder{}
 	inner.raw([]byte("Spec ID Event03\x00"))
-	inner.u32("", 0)           // platformClass
+	inner.u32("", 0)              // platformClass
 	inner.raw([]byte{0, 2, 0, 2}) // minor, major, errata, uintnSize
 	inner.u32("hdr.numberOfAlgorithms", 3)
 	for _, a := range [][2]uint16{{4, 20}, {0xb, 32}, {0xc, 48}} {
